@@ -1,3 +1,4 @@
 -- root of the library: every property module (and through them models, generated files, lemmas)
 import SimuVerif.Properties.C05
 import SimuVerif.Properties.C20
+import SimuVerif.Properties.C18
